@@ -12,7 +12,7 @@ REL = "matid/clustering/sbc.py"
 def run():
     rep = Report("C01")
     rep.trusted_base = ["z3 (quantified arrays/EPR-style formulas)", "pyvc symbolic executor"]
-    sections_parallel(rep, [("localize", _localize), ("clean", _clean), ("merge", _merge), ("cluster.init", _init), ("main", _main)])
+    sections_parallel(rep, [("localize", _localize), ("clean", _clean), ("merge", _merge), ("cluster.init", _init), ("main", _main), ("mergeloop", _mergeloop)])
     return rep
 
 
@@ -78,6 +78,13 @@ def _main(rep):
                 m.globals.pop(k, None)
             else:
                 m.globals[k] = v
+
+
+def _mergeloop(rep):
+    """_merge_clusters: the while loop keeps every cluster (isolated or pending) well-formed; merged clusters come from the contract of the inner merge"""
+    from contracts import sbc_mergeloop as ML
+    from contracts.sbc_model import sbc_ctx
+    run_fv(rep, "mergeloop.", sbc_ctx(), "SBC._merge_clusters", ML.mk, ML.post, loops=ML.LOOPS, contracts=ML.CONTRACTS, max_paths=5000)
 
 
 def replay_key(ob):
